@@ -9,11 +9,50 @@ inductive PStep
   | upd (ps : List Part)
   | qS (ident : String) (size : Int)
   | qL (ident : String) (size period now : Int)
+  | evict (keepK : Key → Bool) (keepL : LKey → Bool)   -- the LRU storage drops any entries (size > 0)
+
+theorem lookup_filter {κ β : Type} [DecidableEq κ] (q : κ → Bool) (k : κ) : ∀ (l : List (κ × β)) (v : β),
+    lookupAssoc k (l.filter fun e => q e.1) = some v → lookupAssoc k l = some v := by
+  intro l
+  induction l with
+  | nil => intro v h; simp [lookupAssoc] at h
+  | cons a l ih =>
+    intro v h
+    obtain ⟨ka, va⟩ := a
+    rw [List.filter_cons] at h
+    by_cases hq : q ka = true
+    · simp only [hq, if_true, lookupAssoc] at h ⊢
+      by_cases e : ka = k
+      · rw [if_pos e] at h ⊢; exact h
+      · rw [if_neg e] at h ⊢; exact ih v h
+    · simp only [hq, Bool.false_eq_true, if_false] at h
+      have := ih v h
+      simp only [lookupAssoc]
+      by_cases e : ka = k
+      · -- the dropped head has key k: then k itself is dropped everywhere, contradiction with `h`
+        exfalso
+        subst e
+        have hnone : ∀ l' : List (κ × β), lookupAssoc ka (l'.filter fun e => q e.1) = none := by
+          intro l'
+          induction l' with
+          | nil => rfl
+          | cons b l' ih' =>
+            obtain ⟨kb, vb⟩ := b
+            rw [List.filter_cons]
+            by_cases hqb : q kb = true
+            · simp only [hqb, if_true, lookupAssoc]
+              have : kb ≠ ka := fun e' => hq (e' ▸ hqb)
+              rw [if_neg this]; exact ih'
+            · simp only [hqb, Bool.false_eq_true, if_false]; exact ih'
+        rw [hnone l] at h; cases h
+      · rw [if_neg e]; exact this
+
 
 def pstepC (st : PStreams) (c : PClient) : PStep → PClient
   | .upd ps => pupdate c ps
   | .qS i s => (pqueryShard c st i s).2
   | .qL i s p n => (pqueryShardLB c st i s p n).2
+  | .evict kK kL => { c with cache := c.cache.filter (fun e => kK e.1), lbCache := c.lbCache.filter (fun e => kL e.1) }
 
 def prun (st : PStreams) (c : PClient) (steps : List PStep) : PClient := steps.foldl (pstepC st) c
 
@@ -66,6 +105,10 @@ theorem pinv_step (st : PStreams) (c : PClient) (h : PInv st c) (s : PStep) :
     rw [hf.2] at hk
     rw [hf.1]
     exact h k ids hk
+  | evict kK kL =>
+    refine ⟨?_, rfl⟩
+    intro k ids hk
+    exact h k ids (lookup_filter kK k c.cache ids hk)
 
 theorem pinv_run (st : PStreams) : ∀ (steps : List PStep) (c : PClient), PInv st c →
     PInv st (prun st c steps) ∧ (prun st c steps).parts = plast steps c.parts := by
